@@ -15,6 +15,8 @@ let run lines =
   | "spec16" -> Model.run_spec16 lines
   | "spec17" -> Model.run_spec17 lines
   | "spec17p" -> Model.run_spec17p lines
+  | "acl" -> Model.run_acl_script lines
+  | "spec06" -> Model.run_spec06 lines
   | m -> failwith ("unknown mode " ^ m)
 
 let flush_script acc =
